@@ -125,6 +125,22 @@ Theorem bpi_feasible_improves :
 Proof. exact FSCTheory.bpi_feasible_improves. Qed.
 Print Assumptions bpi_feasible_improves.
 
+(* the same from recorded float data: V evaluates f up to residual delta (C09_learner_result /
+   certificate), the accepted row meets the constraint up to tau (C09_bpi_step_ok) *)
+Theorem bpi_feasible_improves_approx :
+  forall (p : pomdp R) (f f' : fsc R) msk V V' i0 delta tau,
+  wfp p -> pgamma p < 1 -> wff p f' -> fN f' = fN f ->
+  (forall n, (n < fN f)%nat -> n <> i0 ->
+     (forall a, (a < pA p)%nat -> fpi f' n a = fpi f n a) /\
+     (forall a o m, (a < pA p)%nat -> (o < pO p)%nat -> (m < fN f)%nat -> fom f' n a o m = fom f n a o m)) ->
+  0 <= delta -> 0 <= tau ->
+  syst p f msk delta V -> syst p f' msk 0 V' ->
+  (forall s, (s < pS p)%nat -> V i0 s <= chain_backup p f' msk V i0 s + tau) ->
+  forall n s, (n < fN f)%nat -> (s < pS p)%nat ->
+    V n s <= V' n s + Rmax delta tau / (1 - pgamma p).
+Proof. exact FSCTheory.bpi_feasible_improves_approx. Qed.
+Print Assumptions bpi_feasible_improves_approx.
+
 Theorem bpi_escape_preserves :
   forall (p : pomdp R) (f f' : fsc R) msk V V',
   wfp p -> pgamma p < 1 -> wff p f -> fN f' = Datatypes.S (fN f) ->
